@@ -36,22 +36,32 @@ import vlib
 LEVEL = "model_checking"
 
 PKG = "internal/raftstore"
-MAXIDX = 0x72ffffffffffffff
+BND = 0x737461626c657374      # "stablest": the largest index whose key sorts before the "stablestore-" keys
+TOP = 2**64 - 2               # largest index / DeleteRange bound of the domain (max+1 overflows for 2^64-1)
 ALLKEYS = [1, 2, 3, 4, 5, 6, 7]
 
 # rank -> real uint64 for the model's index ranks.  "" = no integer exists at
 # that gap rank (the executor rounds a bound inwards, which selects the same
-# index ranks).  The first and the last rank always have a value.
+# index ranks).  The first and the last rank always have a value.  The harness
+# derives from the values which index ranks lie above the stable-store keys.
 CONC_135 = [  # exhaustive configs: index ranks 1,3,5; bounds 0..6
-    ["0", "1", "", "2", "", "3", "4"],
-    ["0", "3", "5", "7", "1048576", str(2**40), str(2**40 + 1)],
-    [str(2**40 - 1), str(2**40), "", str(2**40 + 1), str(2**50), str(2**62), str(2**62 + 1)],
-    ["0", "1", "255", "256", "65535", str(MAXIDX), str(MAXIDX + 1)],
+    # (values, index ranks above the "stablestore-" keys)
+    (["0", "1", "", "2", "", "3", "4"], []),
+    (["0", "3", "5", "7", "1048576", str(2**40), str(2**40 + 1)], []),
+    ([str(2**40 - 1), str(2**40), "", str(2**40 + 1), str(2**50), str(2**62), str(2**62 + 1)], []),
+    (["0", "1", "255", "256", "65535", str(BND), str(BND + 1)], []),          # top index = "stablest"
+    ([str(2**63 - 1), str(2**63), "", str(2**63 + 1), str(2**63 + 2**40), str(TOP - 1), str(TOP)], [1, 3, 5]),
+    (["0", "1", "7", str(BND), "", str(BND + 1), str(2**63)], [5]),            # mixed, adjacent to the boundary
+    (["0", "5", str(2**62), str(BND + 1), str(2**63), str(2**63 + 1), str(TOP)], [3, 5]),   # mixed
 ]
 CONC_SIM = [  # simulation config: index ranks 1,2,4,6,7; bounds 0..8
     ["0", "1", "2", "", "3", "", "4", "5", "6"],
     ["0", "1", "2", "5", "7", "1000", str(2**40), str(2**40 + 1), str(2**40 + 2)],
-    ["6", "7", "8", "100", str(2**62), str(2**62 + 1), str(MAXIDX - 1), str(MAXIDX), str(MAXIDX + 1)],
+    ["6", "7", "8", "100", str(2**62), str(2**62 + 1), str(BND - 1), str(BND), str(BND + 1)],
+    [str(2**63 - 1), str(2**63), str(2**63 + 1), str(2**63 + 5), str(2**63 + 6), str(TOP - 8), str(TOP - 2),
+     str(TOP - 1), str(TOP)],                                                                  # all above
+    ["0", "1", "2", str(2**40), str(BND), "", str(BND + 1), str(BND + 2), str(2**63)],           # 1,2,4 below; 6,7 above
+    ["0", "3", "4", "9", str(BND + 1), str(2**63), str(2**63 + 1), str(2**63 + 2), str(TOP)],    # 1,2 below; 4,6,7 above
 ]
 
 PROP_TEXT = {
@@ -67,8 +77,10 @@ PROP_TEXT = {
 }
 
 ASSUMPTIONS = [
-    "index keys whose first byte is >= 's' (indexes >= 0x73*2^56) and index 0 are outside the domain: raft indexes "
-    "count entries and cannot reach them (DeleteRange upper bounds up to 0x73*2^56 are exercised)",
+    "indexes and DeleteRange bounds range over 1 .. 2^64-2, including indexes whose 8-byte key sorts after the "
+    "'stablestore-' keys (> 0x737461626c657374: all index ranks above, and mixed below/above, with and without stable "
+    "keys, DeleteRange across the boundary); only index 0 (never stored by raft) and the value 2^64-1 are outside the "
+    "domain: DeleteRange computes max+1, which overflows and silently deletes nothing for max = 2^64-1",
     "the data of a LogCommand entry is a robust.Message (JSON or 'p'-prefixed protobuf); ConvertToProto log.Panicf()s "
     "on anything else by design",
     "fewer than 100 entries are in the store when ConvertToProto runs (the intermediate batch flush is not modelled)",
@@ -464,6 +476,8 @@ class Validator:
             sig = "%s@%s" % (inv, rec.get("ev"))
             if rec.get("ev") == "DeleteRange" and rec.get("lo", 0) > rec.get("hi", 0):
                 sig += "(min>max)"
+            elif rec.get("ev") == "DeleteRange" and rec.get("across") == 1:
+                sig += "(across-boundary)"
             if rec.get("res") == 3:
                 sig += ":panic"
             elif rec.get("res") == 2:
@@ -549,9 +563,9 @@ def selftest(ctx, rig):
 # --------------------------------------------------------------------------- main
 
 def tlc_design(ctx, cfg, workers, timeout, coverage=False, simulate=None, depth=None, module="RaftStoreMC",
-               deadlock=True):
+               deadlock=True, files=None):
     r = ctx.tlc(module, cfg=cfg, workers=workers, timeout=timeout, coverage=coverage, deadlock=deadlock,
-                simulate=simulate, depth=depth, heap="6g", jvm=jvm_tmp(ctx),
+                simulate=simulate, depth=depth, heap="6g", jvm=jvm_tmp(ctx), files=files,
                 name="design-" + cfg.replace(".cfg", ""))
     if not r.ok:
         # a counterexample on the design spec alone is never a violation
@@ -562,8 +576,25 @@ def tlc_design(ctx, cfg, workers, timeout, coverage=False, simulate=None, depth=
     return r
 
 
-def exhaustive_programs(ctx, cfg, tag, rnd, keys, coverage=False, timeout=900):
-    r = tlc_design(ctx, cfg, workers=4, timeout=timeout, coverage=coverage)
+def exhaustive_programs(ctx, cfg, tag, rnd, keys, coverage=False, timeout=900, above=None):
+    """above=None: the graph of the committed cfg (Above = {}); its tour is
+    executed under ALL concretisations in turn (the trace validation uses the
+    `above` the harness derives from the values, so the verdict is exact; only the
+    edge-cover claim is relative to the Above = {} graph).  above=[ranks]: the
+    graph for that Above (cfg generated at run time), executed under the matching
+    concretisations."""
+    files = None
+    concs = [c for c, _ in CONC_135]
+    if above is not None:
+        with open(os.path.join(vlib.SPEC, cfg)) as fh:
+            text = fh.read()
+        if "    Above = {}\n" not in text:
+            raise vlib.Inconclusive("cannot derive an Above variant of " + cfg)
+        cfg2 = cfg.replace(".cfg", "_above%s.cfg" % "".join(map(str, above)))
+        files = {cfg2: text.replace("    Above = {}\n", "    Above = {%s}\n" % ", ".join(map(str, above)))}
+        cfg = cfg2
+        concs = [c for c, a in CONC_135 if a == list(above)]
+    r = tlc_design(ctx, cfg, workers=4, timeout=timeout, coverage=coverage, files=files)
     edges = parse_edges(r.out)
     if len(edges) == 0 or r.generated - 1 < len(edges):
         raise vlib.Inconclusive("edge print of %s inconsistent: %d edges, %d generated" % (cfg, len(edges), r.generated))
@@ -575,7 +606,7 @@ def exhaustive_programs(ctx, cfg, tag, rnd, keys, coverage=False, timeout=900):
     walks = edge_tour(edges, init, cap=1500, rnd=rnd)
     progs = []
     for i, w in enumerate(walks):
-        vals = CONC_135[(i + ctx.seed) % len(CONC_135)]
+        vals = concs[(i + ctx.seed) % len(concs)]
         progs.append(mk_program("%s-%d" % (tag, i), [json.loads(o) for o in w], vals, [1, 3, 5]))
     ctx.add("states", r.distinct)
     ctx.add("transitions", r.generated)
@@ -654,6 +685,10 @@ def _run(ctx, rig):
         if not quick:
             f_ex.append(ex.submit(exhaustive_programs, ctx, "RaftStore_small.cfg", "small", random.Random(ctx.seed + 1),
                                   [4], True, 1500))
+            # the graphs whose ConvertToProto walk differs: ranks above the stable-store keys
+            for ab in ([1, 3, 5], [5], [3, 5]):
+                f_ex.append(ex.submit(exhaustive_programs, ctx, "RaftStore_tiny.cfg", "tiny-above%s" % "".join(map(str, ab)),
+                                      random.Random(ctx.seed + 2), [1], False, 900, ab))
         f_sim = ex.submit(sim_programs, ctx, 150 if quick else 3000, "sim")
         # random driver: 10^3 operations quick, 10^5 thorough
         if quick:
